@@ -1744,6 +1744,184 @@ def make_wrapper_history(rng, idx, chk):
     return b
 
 
+# 4. "constraints" (own random stream): ONE graph, machine, placement and allocation, and several caller-owned constraint
+#    LISTS that differ in one constraint: a list A drawn from every kind of constraint the function reads, then the
+#    empty list, A with one constraint given another parameter (the same resource / vertex: another alignment,
+#    another reservation, another chip, another group, another route), A without one constraint, and A again.  The
+#    histories above use one constraint list per problem for all calls, so a call WITH a constraint was never followed
+#    by a probe WITHOUT it on the same graph - what a function that keeps what it collected from its constraints
+#    (alignments, reservations, fixed vertices, merged vertices, endpoint routes) between calls gets wrong.  The
+#    problem is made so that the leftover would show: several vertices per chip in the given placement with SDRAM /
+#    SRAM sizes that are no multiples of the alignments and reservations where allocations would start; more cores
+#    needed than one chip has (a leftover reservation moves the boundary of a sequential placement); located and
+#    grouped vertices; constrained vertices that are sinks of nets.  In "cross" histories the first call is a wrapper
+#    (the deprecated one adds its own alignment of SDRAM and reservation of core 0) and the probes are the bare
+#    allocate / place / route calls with the empty list.
+PLACER_SPECS = (
+    ("place.sequential", (), None, None), ("place.breadth_first", (), None, None), ("place.hilbert", (), None, None),
+    ("place.rcm", (), None, None), ("place.rand", (), "random", None),
+    ("place.sa", (("effort", 0.1),), "random", "python"), ("place", (("effort", 0.1),), None, None),
+)
+
+
+def make_constraints_history(rng, idx, chk):
+    C = cons_mod
+    b = Builder(rng, "h%d" % idx)
+    b.theme = "constraints"
+    p = "k0"
+    family = ("allocate", "place", "route", "cross", "allocate", "place")[idx % 6]
+    w, h = rng.choice(((2, 2), (3, 2), (2, 3), (3, 3), (4, 2), (5, 1)))
+    m = Machine(w, h, {Cores: 12, SDRAM: 128, SRAM: 32})
+    chips = list(m)
+    vs = ["v%d" % i for i in range(rng.randint(8, 12))]
+    vr = {}
+    for v in vs:
+        vr[v] = {Cores: rng.choice((1, 1, 2, 3)), SDRAM: rng.choice((1, 3, 5, 6, 7, 9, 10))}
+        if rng.random() < 0.5:
+            vr[v][SRAM] = rng.choice((1, 2, 3, 5))
+    # a placement somebody made earlier: two to four vertices on every chip used (with room for reservations and
+    # padding), and the allocation that goes with it (cores from 1 upwards, nothing aligned)
+    order = list(chips)
+    rng.shuffle(order)
+    load = {xy: 0 for xy in order}
+    on = {xy: [] for xy in order}
+    placements = {}
+    for v in vs:
+        fits = [xy for xy in order if load[xy] + vr[v][Cores] + 1 <= 9 and len(on[xy]) < 4]
+        xy = fits[0] if fits else min(order, key=lambda c: load[c])
+        placements[v] = xy
+        on[xy].append(v)
+        load[xy] += vr[v][Cores] + 1
+    allocations = {}
+    for xy in order:
+        at = {Cores: 1, SDRAM: 0, SRAM: 0}
+        for v in on[xy]:
+            allocations[v] = {}
+            for r, n in vr[v].items():
+                allocations[v][r] = slice(at[r], at[r] + n)
+                at[r] += n
+    v_loc, v_loc2, va, vb, vc, ve, ve2 = rng.sample(vs, 7)
+    nets = [Net(rng.choice(vs), [ve] + rng.sample(vs, rng.randint(0, 2)), 1),
+            Net(rng.choice(vs), rng.sample(vs, rng.randint(1, 2)) + [ve2], rng.choice((1, 2.5)))]
+    nets += [Net(rng.choice(vs), rng.sample(vs, rng.randint(1, 3)), rng.choice((1, 2.5))) for _ in range(rng.randint(2, 5))]
+    xy_a, xy_b = rng.sample(chips, 2)
+    used = sorted((xy for xy in order if on[xy]), key=lambda c: -len(on[c]))
+    xy_r, xy_r2 = used[0], used[1 % len(used)]
+    # (what reads it: a = allocation, p = placement, r = routing; alternatives that name the same resource / vertex)
+    atoms = [
+        ("align SDRAM", "a", [C.AlignResourceConstraint(SDRAM, 4), C.AlignResourceConstraint(SDRAM, 8),
+                              C.AlignResourceConstraint(SDRAM, 2)]),
+        ("align Cores", "a", [C.AlignResourceConstraint(Cores, 2), C.AlignResourceConstraint(Cores, 3)]),
+        ("align SRAM", "a", [C.AlignResourceConstraint(SRAM, 4), C.AlignResourceConstraint(SRAM, 8)]),
+        ("reserve Cores", "ap", [C.ReserveResourceConstraint(Cores, slice(0, 1)), C.ReserveResourceConstraint(Cores, slice(0, 2)),
+                                 C.ReserveResourceConstraint(Cores, slice(2, 3))]),
+        ("reserve SDRAM", "a", [C.ReserveResourceConstraint(SDRAM, slice(5, 9)), C.ReserveResourceConstraint(SDRAM, slice(0, 3))]),
+        ("reserve Cores on a chip", "ap", [C.ReserveResourceConstraint(Cores, slice(0, 3), xy_r),
+                                           C.ReserveResourceConstraint(Cores, slice(1, 2), xy_r),
+                                           C.ReserveResourceConstraint(Cores, slice(0, 3), xy_r2)]),
+        ("reserve SDRAM on a chip", "a", [C.ReserveResourceConstraint(SDRAM, slice(0, 7), xy_r),
+                                          C.ReserveResourceConstraint(SDRAM, slice(0, 7), xy_r2)]),
+        ("location", "p", [C.LocationConstraint(v_loc, xy_a), C.LocationConstraint(v_loc, xy_b)]),
+        ("location of another vertex", "p", [C.LocationConstraint(v_loc2, xy_b), C.LocationConstraint(v_loc2, xy_a)]),
+        ("same chip", "p", [C.SameChipConstraint([va, vb]), C.SameChipConstraint([vb, vc]), C.SameChipConstraint([va, vb, vc])]),
+        ("route endpoint", "r", [C.RouteEndpointConstraint(ve, Routes.north), C.RouteEndpointConstraint(ve, Routes.east)]),
+        ("route endpoint of another vertex", "r", [C.RouteEndpointConstraint(ve2, Routes.south_west),
+                                                   C.RouteEndpointConstraint(ve2, Routes.west)]),
+    ]
+    letter = {"allocate": "a", "place": "p", "route": "r", "cross": "apr"}[family]
+    relevant = [k for k, a in enumerate(atoms) if set(a[1]) & set(letter)]
+    forced = relevant[(idx // 6) % len(relevant)]              # every kind gets its turn to be in list A
+    chosen = {}
+    for k, a in enumerate(atoms):
+        if k == forced or rng.random() < (0.6 if k in relevant else 0.15):
+            chosen[k] = rng.randrange(len(a[2])) if rng.random() < 0.5 else 0
+    if family == "cross":
+        # a list the whole pipeline can usually meet (the placers know the size of a reservation only, and nothing
+        # of alignments): no padding between cores, reservations from core 0 upwards
+        chosen = {k: 0 for k in chosen if atoms[k][0] != "align Cores" or k == forced}
+    keys = list(chosen)
+    rng.shuffle(keys)
+    k_other = forced if rng.random() < 0.5 else rng.choice([k for k in keys if k in relevant])
+    k_less = forced if rng.random() < 0.5 else rng.choice([k for k in keys if k in relevant])
+    lists = collections.OrderedDict()
+    lists["A"] = [atoms[k][2][chosen[k]] for k in keys]
+    lists["none"] = []
+    lists["other"] = [atoms[k][2][(chosen[k] + (1 if k == k_other else 0)) % len(atoms[k][2])] for k in keys]
+    lists["less"] = [atoms[k][2][chosen[k]] for k in keys if k != k_less]
+    b.kinds = ["%s: %s then none" % (family, atoms[k][0]) for k in keys if k in relevant]
+    b.kinds += ["%s: %s then the same with another parameter" % (family, atoms[k_other][0]),
+                "%s: %s then the list without it" % (family, atoms[k_less][0])]
+    b.give(p + ".vr", vr)
+    b.give(p + ".nets", nets)
+    b.give(p + ".machine", m)
+    b.give(p + ".placements", placements)
+    b.give(p + ".allocations", allocations)
+    for name, lst in lists.items():
+        b.give(p + ".cons." + name, lst)
+    seed = rng.randrange(1, 1000)
+
+    def args(name):
+        return [("vertices_resources", slot(p + ".vr")), ("nets", slot(p + ".nets")), ("machine", slot(p + ".machine")),
+                ("constraints", slot(p + ".cons." + name))]
+
+    def allocate_step(name, fn="allocate"):
+        return make_step(fn, args(name) + [("placements", slot(p + ".placements"))], seed=seed,
+                         label="%s with constraint list %s" % (fn, name))
+
+    def place_step(name, spec):
+        fn, kw, rg, kernel = spec
+        return make_step(fn, args(name), [(k, b.lit(v)) for k, v in kw], seed=seed, rng=rg, kernel=kernel,
+                         label="%s with constraint list %s" % (fn, name))
+
+    def route_step(name, radius):
+        if radius is None:      # every optional argument defaulted
+            return make_step("route.ner", args(name) + [("placements", slot(p + ".placements"))], seed=seed,
+                             label="route.ner with constraint list %s" % name)
+        return make_step("route", args(name) + [("placements", slot(p + ".placements")),
+                                                ("allocations", slot(p + ".allocations")),
+                                                ("core_resource", b.lit(Cores)), ("radius", b.lit(radius))], seed=seed,
+                         label="route with constraint list %s" % name)
+    if family == "allocate":
+        fn = rng.choice(("allocate", "allocate", "allocate.greedy"))
+        gen = lambda name: allocate_step(name, fn)
+    elif family == "place":
+        spec = PLACER_SPECS[(idx // 6 * 2 + (idx % 6 == 5) + 3 * chk.seed) % len(PLACER_SPECS)]     # each in its turn
+        gen = lambda name: place_step(name, spec)
+    elif family == "route":
+        radius = rng.choice((None, 0, 2, 20))
+        gen = lambda name: route_step(name, radius)
+    if family == "cross":
+        b.give(p + ".apps", {v: "app%d.aplx" % (i % 2) for i, v in enumerate(vs)})
+        b.give(p + ".net_keys", {n: (i << 6, 0xffffffc0) for i, n in enumerate(nets)})
+        b.give(p + ".system_info", system_info_of(m, rng))
+        b.give(p + ".place_kwargs", {"effort": 0.1})
+        head = [("vertices_resources", slot(p + ".vr")), ("vertices_applications", slot(p + ".apps")),
+                ("nets", slot(p + ".nets")), ("net_keys", slot(p + ".net_keys"))]
+        fast = [("place_kwargs", slot(p + ".place_kwargs"))]
+        given = [] if rng.random() < 0.3 else [("constraints", slot(p + ".cons.A"))]     # defaulted: the wrapper's own only
+        if rng.random() < 0.67:
+            first = make_step("wrapper", head + [("machine", slot(p + ".machine"))], given + fast, seed=seed)
+        else:
+            first = make_step("place_and_route_wrapper", head + [("system_info", slot(p + ".system_info"))], given + fast,
+                              seed=seed)
+        bare = [allocate_step("none"), place_step("none", rng.choice(PLACER_SPECS[:5])), route_step("none", rng.choice((None, 2)))]
+        rng.shuffle(bare)
+        steps = [first] + bare
+        for st in bare:
+            st["probe"] = True
+    else:
+        tail = ["none", "other", "less"]
+        rng.shuffle(tail)
+        steps = [gen(name) for name in ["A"] + tail + [rng.choice(("A", "none"))]]
+        for st, name in zip(steps[1:], tail):
+            st["probe"] = name == "none" or rng.random() < 0.6
+    for st in steps:
+        st["safe"] = True
+    steps[-1]["probe"] = True
+    b.steps = steps
+    return b
+
+
 def make_audit_histories(chk, first_idx):
     rng = random.Random(7919 * chk.seed + 17)
     out = []
@@ -1751,6 +1929,10 @@ def make_audit_histories(chk, first_idx):
                      (make_wrapper_history, chk.pick(4, 40))):
         for _ in range(n):
             out.append(maker(rng, first_idx + len(out), chk))
+    rng = random.Random(7919 * chk.seed + 29)      # the histories above are generated exactly as before
+    for k in range(chk.pick(12, 120)):
+        out.append(make_constraints_history(rng, k, chk))
+        out[-1].label = "h%d" % (first_idx + len(out) - 1)
     return out
 
 
@@ -1866,6 +2048,8 @@ def run(chk):
         chk.count("histories of theme " + b.theme)
         for k in getattr(b, "edit_kinds", ()):
             chk.count("caller's edits in place between two calls: " + k)
+        for k in getattr(b, "kinds", ()):
+            chk.count("constraint lists, " + k)
         if t["not_probed"]:
             chk.count("probes abandoned: arguments cannot be rebuilt in another interpreter", t["not_probed"])
         for e in calls:
@@ -1904,7 +2088,13 @@ def run(chk):
                 "'shapes' histories (methods as a caller-owned list, target_lengths as a dictionary over all chips, "
                 "ordered covering of a table the caller extended after an earlier run, with that run's aliases) and 4 "
                 "'wrappers' histories (the deprecated wrapper() and place_and_route_wrapper() with defaulted and with "
-                "caller-owned constraints and keyword dictionaries)")
+                "caller-owned constraints and keyword dictionaries) and 12 'constraints' histories (one graph, machine, "
+                "placement and allocation; caller-owned constraint lists that differ in one constraint - a list drawn "
+                "from alignments of SDRAM / Cores / SRAM, global and per-chip reservations, locations, same-chip groups "
+                "and route endpoints, then the empty list, the list with one constraint given another parameter, the "
+                "list without one constraint, the first list again - passed in turn to allocate / a placer / route; "
+                "several vertices per chip with sizes that are no multiples of the alignments; or a wrapper first and "
+                "then bare allocate / place / route with the empty list)")
     chk.assumptions += [
         "digests are the first 48 bits of SHA-1 of a canonical encoding: dictionary order counts for arguments "
         "(placers depend on it) but not for results; set order and the order of a routing tree's children never count; "
